@@ -429,5 +429,17 @@ def run(ctx) -> None:
     from rules.client_common import check_lossless_rendering
     n6 = check_lossless_rendering(ctx, 'N6')
     ctx.floor('N6', n6, 2, 'client parameter writers')
+    ctx.rule('N8', 'embedded and command-line runs read the same files: no function of the simulator that reads a file is memoised (an embedded '
+                   'second run would use the first run\'s file content while a fresh process reads the current one) (C08 P2)')
+    from gxstat.runner import Renamed as _Ren
+    from rules.c08 import check_p2 as _p2
+    _n0 = len(ctx.obligations)
+    _p2(_Ren(ctx, {'P2': 'N8'}, key_filter=lambda k: k.endswith('/memoised')))
+    _keep = [o for o in ctx.obligations[_n0:] if o['status'] != 'ok' and ('I/O' in o.get('msg', '') or 'reads' in o.get('msg', ''))]
+    _nmem = len(ctx.obligations) - _n0
+    del ctx.obligations[_n0:]
+    ctx.obligations.extend(_keep)
+    if not _keep:
+        ctx.ok('N8', 'simulator/no-memoised-file-reader', 'src/geophires_x/', f'{_nmem} memoised functions, none reads a file')
     ctx.undecided('byte-identical reports across entry points (depends on file-system and formatting at run time)',
                   'behaviour of the undocumented script entry `python GEOPHIRESv3.py` without argv[2]')
